@@ -5,6 +5,8 @@ instance list whose state is one bit (the exit status so far) plus the output
 produced so far:
 
     schema unreadable / unparsable       -> one diagnostic, status non-zero, stop
+    the library cannot say which class the loaded value selects (raises X)
+                                         -> non-zero (the command may die with X), no instance touched, stop
     selected class rejects the schema    -> that SchemaError through the format, non-zero, stop
     for each instance, in order:
         unreadable / unparsable          -> one diagnostic, status := non-zero, continue
@@ -17,10 +19,18 @@ produced so far:
 select, built exactly as a user would build it (``cls(schema)`` or, with
 --base-uri, ``cls(schema, resolver=RefResolver(base_uri, schema))``).
 
+Whether the *text* of a file (or of stdin) "loads" is decided by the ``json``
+module itself: a description with state ``"text"`` carries the characters the
+command line will read, and the model calls ``json.loads`` on them (so empty
+files, white space, trailing data after a complete value, a byte order mark ...
+are whatever the standard library says they are).
+
 ``compare`` checks an observation against the fold without pinning the
 wording of any built-in template: exact text is compared only where the
 caller supplied the format string (the marker format).
 """
+
+import json
 
 UNREADABLE = ("missing", "notjson")
 
@@ -29,45 +39,91 @@ def class_of(e):
     return type(e).__name__
 
 
-def expect(jsonschema, cls, schema, instances, base_uri=None):
-    """schema: dict(token, state in missing|notjson|json, value)
-    instances: list of dict(token, state, value).
+def load(desc):
+    """desc: dict(token, state, value | text) -> (loads?, value).
+    state: missing | notjson (never loads), json (``value`` given), text (``json.loads`` decides)."""
+    if desc["state"] in UNREADABLE:
+        return False, None
+    if desc["state"] == "text":
+        try:
+            return True, json.loads(desc["text"])
+        except ValueError:
+            return False, None
+    return True, desc["value"]
+
+
+def expect(jsonschema, cls, schema, instances, base_uri=None, memo=None, select=None):
+    """schema: dict(token, state in missing|notjson|json|text, value or text)
+    instances: list of dict(token, state, value or text).
+    cls: the class the command line has to use; or, with ``select``, a function
+    loaded schema value -> class that is asked once the schema has loaded (it
+    may raise: the library has no answer).
+    memo: optional dict, private to one (jsonschema, cls/select, schema, base_uri):
+    every step of the fold is a pure function of the file it looks at (a fresh
+    validator per instance), so its result is kept under the file's ``key``
+    (a hashable name of its content, given by the caller; never "schema").
     Returns dict(schema_failure, items, nonzero)."""
-    exc = jsonschema.exceptions
-    if schema["state"] in UNREADABLE:
-        return {"schema_failure": ("diag", schema["token"]), "items": [], "nonzero": True}
-    try:
-        cls.check_schema(schema["value"])
-    except exc.SchemaError as e:
-        return {"schema_failure": ("err", e), "items": [], "nonzero": True}
+    if memo is None:
+        memo = {}
+    if "schema" not in memo:
+        memo["schema"] = _schema_step(jsonschema, cls, schema, select)
+    failure, value, cls = memo["schema"]
+    if failure is not None:
+        return {"schema_failure": failure, "items": [], "nonzero": True}
     items, nonzero = [], False
     for inst in instances:
-        if inst["state"] in UNREADABLE:
-            items.append(("diag", inst["token"]))
-            nonzero = True
-            continue
-        if base_uri is None:
-            v = cls(schema["value"])
+        key = inst.get("key")       # names the file's content; without one the step is not kept
+        if key is None:
+            item = _instance_step(jsonschema, cls, value, inst, base_uri)
         else:
-            v = cls(schema["value"], resolver=jsonschema.RefResolver(base_uri=base_uri, referrer=schema["value"]))
-        try:
-            errors = list(v.iter_errors(inst["value"]))
-        except Exception as e:     # the library itself has no answer for this instance
-            items.append(("crash", class_of(e), inst["token"]))
+            if key not in memo:
+                memo[key] = _instance_step(jsonschema, cls, value, inst, base_uri)
+            item = memo[key]
+        items.append(item)
+        if item[0] != "ok":
             nonzero = True
+        if item[0] == "crash":      # the library itself has no answer for this instance
             break
-        if errors:
-            nonzero = True
-            items.append(("errs", errors, inst["token"]))
-        else:
-            items.append(("ok", inst["token"]))
     return {"schema_failure": None, "items": items, "nonzero": nonzero}
+
+
+def _schema_step(jsonschema, cls, schema, select):
+    ok, value = load(schema)
+    if not ok:
+        return ("diag", schema["token"]), None, None
+    if select is not None:
+        try:
+            cls = select(value)
+        except Exception as e:
+            return ("crash", class_of(e)), None, None
+    try:
+        cls.check_schema(value)
+    except jsonschema.exceptions.SchemaError as e:
+        return ("err", e), None, None
+    return None, value, cls
+
+
+def _instance_step(jsonschema, cls, schema_value, inst, base_uri):
+    ok, value = load(inst)
+    if not ok:
+        return ("diag", inst["token"])
+    if base_uri is None:
+        v = cls(schema_value)
+    else:
+        v = cls(schema_value, resolver=jsonschema.RefResolver(base_uri=base_uri, referrer=schema_value))
+    try:
+        errors = list(v.iter_errors(value))
+    except Exception as e:
+        return ("crash", class_of(e), inst["token"])
+    if errors:
+        return ("errs", errors, inst["token"])
+    return ("ok", inst["token"])
 
 
 def coarse(exp):
     """Coarse description of the expected fold, used for signatures and outcome classes."""
     if exp["schema_failure"] is not None:
-        return "schema-" + ("unreadable" if exp["schema_failure"][0] == "diag" else "rejected")
+        return "schema-" + {"diag": "unreadable", "err": "rejected", "crash": "library-raises"}[exp["schema_failure"][0]]
     names = {"diag": "unreadable", "errs": "invalid", "ok": "valid", "crash": "library-raises"}
     return ",".join(names[i[0]] for i in exp["items"]) or "empty"
 
@@ -101,6 +157,8 @@ def compare(exp, obs, out, fmt, all_tokens):
     pairwise not substrings of one another.
     Returns None or (kind, detail)."""
     crash = [i for i in exp["items"] if i[0] == "crash"]
+    if exp["schema_failure"] is not None and exp["schema_failure"][0] == "crash":
+        crash = [exp["schema_failure"]]
     # ---- status -------------------------------------------------------------
     if obs["raised"] is not None:
         if not crash:
@@ -124,7 +182,9 @@ def compare(exp, obs, out, fmt, all_tokens):
         touched = _occurrences(stderr, inst_tokens)
         if touched:
             return ("schema-failure-instance-processed", {"mentioned": touched, "stderr": stderr[:300]})
-        if kind == "diag":
+        if kind == "crash":
+            pass        # a traceback may or may not be written; nothing more is claimed
+        elif kind == "diag":
             n = stderr.count(what)
             if n < 1 or (out == "plain" and n != 1):
                 return ("schema-failure-diagnostic", {"schema_file_mentions": n, "stderr": stderr[:300]})
